@@ -29,7 +29,7 @@ RULE = ('one foreign .trashinfo per case (absolute / relative Path, percent-esca
         'distinct = (content features, trash-dir kind, home mode)')
 ASSUMPTIONS = ['for a relative Path in the home trash the spec defines no base: only agreement between the commands is required there',
                'trash-rm has no --trash-dir option and is skipped for custom trash directories']
-PROBES = ['four-way-agree', 'relative-path', 'absolute-path', 'home-own-volume', 'custom-trash-dir', 'duplicate-keys', 'crlf', 'escapes',
+PROBES = ['trash-dir-through-cross-volume-symlink', 'four-way-agree', 'relative-path', 'absolute-path', 'home-own-volume', 'custom-trash-dir', 'duplicate-keys', 'crlf', 'escapes',
           'non-utf8-escape', 'empty-threshold-checked', 'rm-checked', 'restore-checked', 'undated']
 TECHNIQUE = 'deterministic simulation, four-way differential of the readers on rebuilt worlds plus comparison with an independent spec decoder; TRASH_DATE sweeps the purge threshold'
 LEVEL_TEXT = 'seeded exploration of .trashinfo contents x trash-dir kinds; agreement of list / restore / rm / empty on path and date, and with the spec'
@@ -102,6 +102,11 @@ def gen(rng):
     custom = None
     if rng.random() < 0.2:
         custom = rng.choice([home + '/ct'] + [v + '/ct' for v in L['vols']])
+        if L['vols'] and rng.random() < 0.5:
+            v = rng.choice(L['vols'])
+            steps.append(['d', v + '/realct', 0o700])
+            steps.append(['l', home + '/ctlink', v + '/realct'])
+            custom = home + '/ctlink'
         tdir, top = custom, None
     else:
         tdir, top, _u = rng.choice(locs)
@@ -151,6 +156,8 @@ def check(sim, case, st):
         st.probes['home-own-volume'] += 1
     if custom:
         st.probes['custom-trash-dir'] += 1
+        if tdir.endswith('/ctlink'):
+            st.probes['trash-dir-through-cross-volume-symlink'] += 1
     for f, p in (('dup-path', 'duplicate-keys'), ('dup-date', 'duplicate-keys'), ('crlf', 'crlf'), ('mixedcase-escapes', 'escapes'),
                  ('non-utf8-escape', 'non-utf8-escape')):
         if f in feats:
